@@ -191,13 +191,30 @@ def _run(res, rng, tier, driver, work):
                     pu.feed(gw, line)
                 except Exception:  # noqa: BLE001  (other properties' business)
                     pass
-            gw.tasks.persistence.save_sensors()
+            pers = gw.tasks.persistence
+            if tail and i % 2:
+                # the first line of the tail is handled while the first save writes (after the network was
+                # serialised, before the file is swapped in): the second save has to pick it up
+                real_action, first, tail = pers._perform_file_action, tail[0], tail[1:]
+
+                def action(filename, what, real_action=real_action, first=first, gw=gw):
+                    out = real_action(filename, what)
+                    if what == "save":
+                        del pers._perform_file_action
+                        try:
+                            pu.feed(gw, first)
+                        except Exception:  # noqa: BLE001
+                            pass
+                    return out
+                pers._perform_file_action = action
+            pers.save_sensors()
+            pers.__dict__.pop("_perform_file_action", None)
             for line in tail:
                 try:
                     pu.feed(gw, line)
                 except Exception:  # noqa: BLE001
                     pass
-            gw.tasks.persistence.save_sensors()
+            pers.save_sensors()
         except Exception as e:  # noqa: BLE001
             res.oracle_failures.append({"key": {"kind": "save-raised", "fmt": fmt, "exc": type(e).__name__},
                                         "what": f"save_sensors raised {type(e).__name__}: {e}",
